@@ -13,6 +13,10 @@ import (
 func init() {
 	props["C04"] = runC04
 	replayers["C04"] = func(c *ctx, a []string) {
+		if len(a) == 4 && a[0] == "conv" {
+			c04convReplay(c, a)
+			return
+		}
 		if len(a) == 3 && a[0] == "maps" {
 			var rules []c04rule
 			for _, r := range strings.Split(a[2], ",") {
@@ -200,4 +204,6 @@ func runC04(c *ctx) {
 		}
 		c04case(c, gen.Pick(r, c04orders), rules)
 	}
+	// the converters that produce the header filters + the header-filter part of rebuildMatchFiles (c04gw.go)
+	runC04Conv(c)
 }
